@@ -666,6 +666,64 @@ lie one after the other -/
 theorem scan_chain (r : Re) (text : List Char) : Chain text.length r text (scan r text) :=
   scanAux_chain _ _ _ _ _
 
+/-! ### the fuel of the scanner is sufficient
+
+`scanAux` recurses on a fuel counter; `scan` starts it with `2 * length + 2`.  The measure
+`2 * |s| + (if mustAdvance then 0 else 1)` strictly decreases at every step (a non-empty match
+or a skipped character shortens `s`; an empty match keeps `s` but sets `mustAdvance`, after
+which only a shorter remainder is accepted), so the scanner never stops because the fuel ran
+out: any larger fuel gives the same list. -/
+
+theorem firstEnd_advance {n r s t} (h : firstEnd n r s true = some t) : t.length < s.length := by
+  simp only [firstEnd] at h
+  have := List.find?_some h
+  simpa using this
+
+/-- with more fuel than the measure, the amount of fuel is irrelevant -/
+theorem scanAux_fuel (n : Nat) (r : Re) :
+    ∀ fuel fuel' s adv, 2 * s.length + (if adv = true then 0 else 1) < fuel →
+      2 * s.length + (if adv = true then 0 else 1) < fuel' →
+      scanAux n r fuel s adv = scanAux n r fuel' s adv := by
+  intro fuel
+  induction fuel with
+  | zero => intro fuel' s adv h; omega
+  | succ fuel ih =>
+    intro fuel' s adv h h'
+    cases fuel' with
+    | zero => omega
+    | succ fuel' =>
+      simp only [scanAux]
+      cases hf : firstEnd n r s adv with
+      | some t =>
+        simp only []
+        have hle : t.length ≤ s.length := (firstEnd_sound hf).length_le
+        by_cases hlt : t.length < s.length
+        · rw [if_pos hlt, if_pos hlt]
+          congr 1
+          apply ih <;> simp <;> split at h <;> split at h' <;> omega
+        · rw [if_neg hlt, if_neg hlt]
+          have hadv : adv = false := by
+            cases adv with
+            | false => rfl
+            | true => exact absurd (firstEnd_advance hf) hlt
+          subst hadv
+          congr 1
+          apply ih <;> simp at h h' ⊢ <;> omega
+      | none =>
+        simp only []
+        cases s with
+        | nil => rfl
+        | cons c s' =>
+          simp only []
+          apply ih <;> simp at h h' ⊢ <;> split at h <;> split at h' <;> omega
+
+/-- **fuel sufficiency of `scan`**: running the scanner with any amount of extra fuel yields
+the same matches — the bound `2 * length + 2` is never what ends the scan -/
+theorem scan_fuel_sufficient (r : Re) (text : List Char) (extra : Nat) :
+    scanAux text.length r (2 * text.length + 2 + extra) text false = scan r text := by
+  unfold scan
+  apply scanAux_fuel <;> simp <;> omega
+
 /-- `ys` occur in `s` as disjoint substrings, in this order -/
 inductive InOrder : List (List Char) → List Char → Prop
   | nil (s) : InOrder [] s
